@@ -343,6 +343,10 @@ func runRecord(c *recCase, env *rt.Env) rt.Result {
 	for w := 0; w < c.Warm; w++ {
 		big := make([]byte, c.MaxSeg+1)
 		if err := q.Append(big); err != nil {
+			if err == durablequeue.ErrQueueFull {
+				// the queue is empty at this point (every warm-up block was advanced past): the spec accepts this append
+				return rt.Fail(-1, fmt.Sprintf("append of %d bytes to an empty queue (max size %d) rejected as full after %d roll-overs", len(big), c.MaxSize, w), "full", "ok", "limit_decision")
+			}
 			return rt.Infra("warm-up append: " + err.Error())
 		}
 		if err := q.Advance(); err != nil {
